@@ -20,6 +20,7 @@ PROPS = {
                       "diagnostics must not end the process (known finding: reader.error exits)",
                 trusted=TRUSTED + "; [A] the parse below Program raises only fparser exceptions",
                 explanation="[P] F1, U1, R17; whole-parser escape freedom only for functions under contract",
+                enum=[("enum_frame.py", ["frame.exits", "frame.decode"])],
                 witnesses=["c06_end_name_mismatch_exits", "c06_dangling_construct_name_exits"]),
     "C09": dict(level="other",
                 claim="on every normal and exceptional exit of the only two functions that open scopes (BlockBase.match, "
@@ -27,5 +28,31 @@ PROPS = {
                       "operations proved against the ghost stack; one clause (pre-existing same-named table is lost) is a known finding",
                 trusted=TRUSTED,
                 explanation="[P] T1-T6, U8a, F3 over ghost scope stack tied to _current_scope/_parent by REP; rule-call protocol G3 assumed for callees",
+                enum=["enum_registries.py --only C09", ("enum_frame.py", ["frame.inventory", "frame.scope_calls"]),
+                      ("enum_block_table.py", ["F12.table#start", "F12.table#flags", "F12.table#labelled"])],
                 witnesses=["c09_internal_syntax_error_leaves_scope", "c09_main_program0_leaves_scope", "c09_failing_parse_removes_existing_table"]),
+    "C08": dict(level="other", enum=["enum_block_table.py"],
+                claim="BlockBase.match proved to return a block with an end class only if its END was found with agreeing names and labels "
+                      "(when the caller asks for the check); call-site table of the 35 block rules enumerated against the constructs named in the "
+                      "property (rules without a name check: known findings); Program.match accepts only exhausted input on its normal exit",
+                trusted=TRUSTED,
+                explanation="[P] U8c/d/e, F2; [E] F12 table; rejection of unbalanced parentheses is emergent and not decided",
+                witnesses=["c08_interface_end_name_mismatch", "c08_subroutine_end_name_mismatch", "c08_labelled_do_end_name_mismatch"]),
+    "C15": dict(level="other", enum=["enum_sentinels.py"],
+                claim="replace_omp_sentinels proved to overwrite exactly the two sentinel characters with blanks (length and every other column "
+                      "unchanged); get_single_line proved to apply it to the normalised line before the line is stored or seen by anyone "
+                      "(fixed form, option on); the three sentinel patterns enumerated against the column rules",
+                trusted=TRUSTED,
+                explanation="[P] R11, R7 placement; [E] R12 patterns; free-form placement inside get_source_item not yet under contract"),
+    "C16": dict(level="other", enum=[("enum_block_table.py", ["F12.scoping", "F12.table#start", "F12.table#flags", "F12.table#labelled"]), ("enum_frame.py", ["frame.scope_calls"])],
+                claim="symbol-table operations proved (enter/exit/remove/lookup of tables over the ghost stack), scope entry in BlockBase.match "
+                      "proved balanced; the scoping statements are exactly the six of the property (enumerated)",
+                trusted=TRUSTED,
+                explanation="[P] T1-T8, U8a; [E] scoping class set, scope call sites; intrinsic resolution (F8/F9) not yet under contract"),
+    "C17": dict(level="other", enum=["enum_registries.py --only C17"],
+                claim="registry inclusion f2003 within f2008 enumerated on the real ParserFactory output; 2008-only rules absent from the 2003 "
+                      "registry; program-level refinement compared on a statement corpus (differences: known findings)",
+                trusted=TRUSTED,
+                explanation="[E] P2; [B] P3 at program level on a fixed corpus",
+                witnesses=["c17_open_without_unit", "c17_procedure_stmt_text_differs"]),
 }
